@@ -387,6 +387,10 @@ func keyTermsAtCallTB(p *core.Program, tb *core.TermBuilder, call ssa.CallInstru
 				continue
 			}
 		}
+		if !strings.Contains(field, ".") && !strings.Contains(field, "[") {
+			out = append(out, tb.FieldTerm(arg, field))
+			continue
+		}
 		out = append(out, tb.Term(arg)+path)
 	}
 	return out
@@ -527,8 +531,13 @@ func loopNotLeftEarly(r *core.Run, rule string, h *core.Handler, what string, fi
 				if !core.SameLoop(b, eb) || b == header {
 					continue
 				}
-				for _, sc := range b.Succs {
+				for si, sc := range b.Succs {
 					if core.SameLoop(sc, eb) || endsInPanicOrFailure(p, fn, sc) {
+						continue
+					}
+					// left on a condition that every execution taking this way out turns into a failing return
+					// (a sticky error tested in the loop condition)
+					if exists, ok := p.AbsEdgeCommits(fn, core.Edge{From: b, Succ: si}); ok && !exists {
 						continue
 					}
 					bad = p.InstrPos(b.Instrs[len(b.Instrs)-1])
@@ -1499,6 +1508,9 @@ func exhaustiveEnumeration(r *core.Run, rule, m string, funcs []*ssa.Function) i
 					if endsInPanicOrFailure(p, fn, sc) {
 						continue
 					}
+					if callbackNeverStops(p, fn, lb, sc, funcs) {
+						continue // a visitor-style iterator: every visitor handed in on this path asks to go on
+					}
 					r.Violation(rule, m+":export-loop-exits-early:"+fn.Name(), p.InstrPos(lb.Instrs[len(lb.Instrs)-1]), "an iteration on the export path can end before the iterator is exhausted: records after that point are not exported")
 				}
 			}
@@ -1569,6 +1581,95 @@ func guardedHereOrAtCallSites(p *core.Program, fn *ssa.Function, at ssa.Instruct
 			}
 		})
 		if !ok {
+			return false
+		}
+	}
+	return n > 0
+}
+
+// callbackNeverStops: block lb leaves the loop towards sc on the verdict of a callback parameter of fn (a visitor that
+// may ask to stop), and every function handed in for that parameter at the call sites in `funcs` returns, on all its
+// paths, the constant that means "go on".
+func callbackNeverStops(p *core.Program, fn *ssa.Function, lb, sc *ssa.BasicBlock, funcs []*ssa.Function) bool {
+	ifi, ok := lb.Instrs[len(lb.Instrs)-1].(*ssa.If)
+	if !ok {
+		return false
+	}
+	cond := ifi.Cond
+	neg := false
+	for {
+		if u, isNot := cond.(*ssa.UnOp); isNot && u.Op == token.NOT {
+			cond, neg = u.X, !neg
+			continue
+		}
+		break
+	}
+	call, ok := cond.(*ssa.Call)
+	if !ok {
+		return false
+	}
+	prm, ok := call.Call.Value.(*ssa.Parameter)
+	if !ok || prm.Parent() != fn {
+		return false
+	}
+	idx := -1
+	for i, q := range fn.Params {
+		if q == prm {
+			idx = i
+		}
+	}
+	// the callback verdict that leaves the loop
+	exitOn := lb.Succs[0] == sc
+	if neg {
+		exitOn = !exitOn
+	}
+	n := 0
+	for _, caller := range funcs {
+		okAll := true
+		allInstrs(caller, func(in ssa.Instruction) {
+			c, isCall := in.(ssa.CallInstruction)
+			if !isCall {
+				return
+			}
+			for _, cal := range p.Callees(c) {
+				if cal != fn {
+					continue
+				}
+				cc := c.Common()
+				var actuals []ssa.Value
+				if cc.IsInvoke() {
+					actuals = append(actuals, cc.Value)
+				}
+				actuals = append(actuals, cc.Args...)
+				if idx < 0 || idx >= len(actuals) {
+					okAll = false
+					continue
+				}
+				var vf *ssa.Function
+				switch a := actuals[idx].(type) {
+				case *ssa.MakeClosure:
+					vf, _ = a.Fn.(*ssa.Function)
+				case *ssa.Function:
+					vf = a
+				}
+				if vf == nil || vf.Blocks == nil {
+					okAll = false
+					continue
+				}
+				n++
+				for _, b := range vf.Blocks {
+					ret, isRet := b.Instrs[len(b.Instrs)-1].(*ssa.Return)
+					if !isRet {
+						continue
+					}
+					k, isConst := ret.Results[0].(*ssa.Const)
+					if len(ret.Results) != 1 || !isConst || k.Value == nil || (k.Value.ExactString() == "true") == exitOn {
+						okAll = false
+					}
+				}
+			}
+		})
+		if !okAll {
 			return false
 		}
 	}
